@@ -70,6 +70,9 @@ def wild_defs(seed, n):
             tail = D.cmdtail([c1, c2], optional=rnd.random() < 0.5)
         else:
             tail = D.NOTAIL
+            if rnd.random() < 0.4:
+                # a catch-all at the end of the line (`any("REST", Some).many()`): whatever is left, empty strings included
+                named.append({"kind": "any", "id": "rest", "any_all": True, "anywhere": False, "arity": rnd.choice(["many", "opt", "one"]), "help": "HELP-rest"})
         lvl = D.level(named, tail, version=rnd.random() < 0.4, ftu=rnd.random() < 0.2)
         # the help / version flags are ordinary named flags: they may be given a variable to fall back to
         if rnd.random() < 0.15:
